@@ -70,6 +70,21 @@ def build(node, owned=None):
         return cola.no_dispatch(build(node["arg"], owned))
     if k == "Annot":
         return ANNOT[node["name"]](build(node["arg"], owned))
+    if k == "Scaled":
+        A = build(node["arg"], owned)
+        c = P.as_scalar(node["c"])
+        return c * A if node.get("side", "l") == "l" else A * c
+    if k == "Gram":
+        A = build(node["arg"], owned)
+        A2 = A if node.get("same", True) else build(node["arg"], owned)  # merely equal, not identical
+        f = node["form"]
+        if f == "TA":
+            return A.T @ A2
+        if f == "HA":
+            return A.H @ A2
+        if f == "AT":
+            return A @ A2.T
+        return A @ A2.H
     if k == "Sliced":
         A = build(node["arg"], owned)
         s0 = to_index(node["slices"][0], A.shape[0])
